@@ -15,7 +15,8 @@ Cv == INSTANCE Convert
 VARIABLE call
 
 A4 == { << 10, 0, 0, 1 >>, << 192, 168, 7, 9 >> }
-A6 == { [i \in 1..16 |-> i], [i \in 1..16 |-> 200 + i] }
+Mapped(a, b, c, d) == << 0, 0, 0, 0, 0, 0, 0, 0, 0, 0, 255, 255, a, b, c, d >>
+A6 == { [i \in 1..16 |-> i], [i \in 1..16 |-> 200 + i], Mapped(203, 0, 113, 9), Mapped(10, 0, 0, 1), [i \in 1..16 |-> 0] }
 Ports == { 258, 772 }
 
 Quad4 == { [sa |-> s, da |-> d, sp |-> p, dp |-> q] : s \in A4, d \in A4, p \in Ports, q \in Ports }
